@@ -443,8 +443,14 @@ class BitArray(Bits):
         if not isinstance(pos, abc.Iterable):
             pos = (pos,)
         v = 1 if value else 0
-        if isinstance(pos, range):
-            self._bitstore.__setitem__(slice(pos.start, pos.stop, pos.step), v)
+        if isinstance(pos, range) and len(pos) > 0 and 0 <= pos[0] < len(self) and 0 <= pos[-1] < len(self):
+            # Every position is a valid non-negative index, so the range can be written as one slice
+            # (from its first to its last element, which avoids a stop of -1 meaning 'from the end').
+            first, last = pos[0], pos[-1]
+            if pos.step > 0:
+                self._bitstore.__setitem__(slice(first, last + 1, pos.step), v)
+            else:
+                self._bitstore.__setitem__(slice(first, last - 1 if last > 0 else None, pos.step), v)
             return
         for p in pos:
             self._bitstore[p] = v
